@@ -17,6 +17,8 @@ func checkC07(p *Prog, r *Report) {
 	c07Tillage(p, r)
 	c07SignSafe(p, r)
 	c07Writers(p, r)
+	mineralBooks(p, r, "C07.R8")
+	nmoveSweeps(p, r, "C07.R9")
 	// "finite": the partial operations of the nitrogen routines stay inside their domains (shared machinery with C06.R6)
 	domainRule(p, r, "C07.R7", "the nitrogen routines (denitrification, mineralisation, transport, daily bookkeeping)", []string{"hermes.Denitr", "hermes.Denitmo", "hermes.mineral", "hermes.nmove", "hermes.Nitro"}, 60)
 }
